@@ -254,10 +254,7 @@ class SCCReader(BaseReader):
             text_too_long = [
                 line for line in caption_text.split("\n") if len(line) > 32
             ]
-            if caption_start in lines_too_long:
-                lines_too_long[caption_start] = text_too_long
-            else:
-                lines_too_long[caption_start].extend(text_too_long)
+            lines_too_long[caption_start].extend(text_too_long)
 
         msg = ""
         if bool(lines_too_long.keys()):
